@@ -394,3 +394,10 @@ Proof.
   - unfold h. rewrite <- (firstn_skipn k log) at 2. rewrite project_app, app_length. lia.
   - apply project_firstn_mono. exact Hjk.
 Qed.
+
+(* two watchers on one transaction (the handler's and, say, admin WatchTransactions with that ID): the one
+   that leaves takes only itself out of the store's registry, the handler's watch stays registered *)
+Theorem second_watcher_leaves : forall (r : list (str * list nat)) t2 w2 t1 w1,
+  w1 <> w2 ->
+  (In w1 (watchers_of eqb_str (unregister eqb_str Nat.eqb r t2 w2) t1) <-> In w1 (watchers_of eqb_str r t1)).
+Proof. exact (unregister_others_unaffected eqb_str Nat.eqb eqb_str_eq Nat.eqb_eq). Qed.
